@@ -7,14 +7,20 @@ from vlib import *
 TRACE_CFG = "FeeMarketTrace.cfg"
 
 MANIFEST_ENTRY = dict(engine="FeeMarket", design="§4 C17",
-   technique="TLA+ spec FeeMarket.tla with exact BigNum arithmetic: TLC exhaustive check of the piecewise EIP-1559 definition, its bounds and monotonicity in g over the full small input grid and of block sequences of the as-built machine; the same grid, seeded random 64/128-bit points and TLC-simulated / random block sequences are executed on the real keeper CalculateBaseFee, feemarket BeginBlock/EndBlock and ante GasWantedDecorator, and every real output is validated by TLC against the property layer (trace validation)",
-   text="The statement's piecewise definition (unchanged at g = T, +max(1, base x (g-T)/T/denominator) above, -base x (T-g)/T/denominator clamped at the min gas price below, T = gas limit / elasticity, unlimited = 2^64-1) and the gas-figure clamp max(floor(gasWanted x minGasMultiplier), gasUsed) are written as TLA+ operators over decimal strings. TLC proves bounds and monotonicity (on base >= minGasPrice) for every tuple of the enumerated grid and that the code-shaped model satisfies the definition, explores all block sequences of the model up to the configured length, and then validates every value the real CalculateBaseFee returns for the same grid plus random 64/128-bit inputs (with neighbouring g for monotonicity), and every step of scripted block sequences run through the real BeginBlock, GasWantedDecorator, EndBlock and store commit.",
-   note="Keeper-level blocks: the block context is built as baseapp.BeginBlock builds it (consensus params from the param store, block gas meter from GetMaximumBlockGas) and gas used is consumed on that meter, but transactions are not executed through DeliverTx. The statement is taken to be silent when the base fee is disabled, for the first base-fee block (height = EnableHeight), where a division of the formula is undefined (elasticity 0, denominator 0, T = 0 with g > 0: the code panics there, recorded as notes) and for gas quantities beyond MaxInt64. A fractional min gas price may be rounded either way (the code truncates; recorded as a note). Bounded by the constants in specs/FeeMarket_*.cfg; TLC, the Json community module and the BigNum override are trusted.")
+   technique="TLA+ spec FeeMarket.tla with exact BigNum arithmetic: TLC exhaustive check of the piecewise EIP-1559 definition, its bounds and monotonicity in g over the full small input grid and of block sequences of the as-built machine; the same grid, seeded random 64/128-bit points and TLC-simulated / random block sequences - with node operations between blocks: restart on the same database, x/feemarket ExportGenesis -> InitGenesis, ExportAppStateAndValidators -> InitChain on a fresh application, in the ABCI order (no Commit before the first block) and with a Commit - are executed on the real keeper CalculateBaseFee, feemarket BeginBlock/EndBlock and ante GasWantedDecorator, and every real output is validated by TLC against the property layer (trace validation), step by step and against the recorded history (the base fee of a block is the function of the base fee and the gas figure recorded for the previous block)",
+   text="The statement's piecewise definition (unchanged at g = T, +max(1, base x (g-T)/T/denominator) above, -base x (T-g)/T/denominator clamped at the min gas price below, T = gas limit / elasticity, unlimited = 2^64-1) and the gas-figure clamp max(floor(gasWanted x minGasMultiplier), gasUsed) are written as TLA+ operators over decimal strings. TLC proves bounds and monotonicity (on base >= minGasPrice) for every tuple of the enumerated grid and that the code-shaped model satisfies the definition, explores all block sequences of the model up to the configured length, and then validates every value the real CalculateBaseFee returns for the same grid plus random 64/128-bit inputs (with neighbouring g for monotonicity), and every step of scripted block sequences run through the real BeginBlock, GasWantedDecorator, EndBlock and store commit. Sequences are histories: between two blocks a node may be restarted (new application object on the same database), the module may be re-initialised from its own exported genesis, or the chain may be exported (ExportAppStateAndValidators on a new application object, as the export command does) and a fresh application initialised from the exported document (InitChain), either in the ABCI order InitChain, BeginBlock, ..., Commit or with a Commit right after InitChain. The specification demands that these operations carry the base fee, the gas figure, the parameters and the block gas limit unchanged (step level) and, independently of what the stores say, that the base fee of every block is the function of the base fee and the gas figure RECORDED for the previous block - the figure being computed by the statement's formula from the gas the block's transactions declared and the gas used (history level, ghost variable gh of FeeMarket.tla). A model whose import loses the gas figure must be refuted by TLC (FeeMarket_import_witness.cfg).",
+   note="Keeper-level blocks: the block context is built as baseapp.BeginBlock builds it (consensus params from the param store, block gas meter from GetMaximumBlockGas) and gas used is consumed on that meter, but transactions are not executed through DeliverTx. The export/import scenario exports and imports the fee market module's genesis and the consensus parameters (the other modules of the fresh application start from the test genesis); InitChain's uncommitted deliver state is written to the root multistore without a commit, which gives the first block the view baseapp gives it. The statement is taken to be silent when the base fee is disabled, for the first base-fee block (height = EnableHeight), where a division of the formula is undefined (elasticity 0, denominator 0, T = 0 with g > 0: the code panics there, recorded as notes) and for gas quantities beyond MaxInt64. A fractional min gas price may be rounded either way (the code truncates; recorded as a note). Bounded by the constants in specs/FeeMarket_*.cfg; TLC, the Json community module and the BigNum override are trusted.")
 
 REQUIRED_COVER = [
     "calc:g=T", "calc:g>T", "calc:g>T,min-step", "calc:g<T", "calc:g<T,clamped",
     "begin_block:g=T", "begin_block:g>T", "begin_block:g<T", "begin_block:g>T,min-step", "begin_block:g<T,clamped",
     "ante:enabled", "end_block:used>wanted*mult", "end_block:wanted*mult>=used", "commit:-", "set_params:-",
+    # node operations between blocks, each after a block that left a non-zero gas figure
+    "restart:fig>0", "reinit:abci-order,fig>0", "reinit:committed,fig>0",
+    "export_import:abci-order,fig>0", "export_import:committed,fig>0",
+    # the history-level statement spoke about a block that follows each of them, in a region where g matters
+    "sequence:g<T,after=commit", "sequence:g>T,after=commit",
+    "sequence:g<T,after=restart", "sequence:g<T,after=reinit", "sequence:g<T,after=export_import",
 ]
 
 
@@ -79,10 +85,25 @@ def run(c):
     seq_cfg = "FeeMarket_intended.cfg" if quick else "FeeMarket_intended_thorough.cfg"
     r = tlc_exhaustive(wd, "FeeMarket.tla", seq_cfg, workers=8, timeout=3000, heap="6g")
     c.add_tlc(seq_cfg, r)
+    # block sequences with node operations (restart, module re-initialisation, export/import) between blocks
+    bnd_cfg = "FeeMarket_boundary.cfg" if quick else "FeeMarket_boundary_thorough.cfg"
+    r = tlc_exhaustive(wd, "FeeMarket.tla", bnd_cfg, workers=8, timeout=3000, heap="6g")
+    c.add_tlc(bnd_cfg, r)
+    # non-vacuity of the history-level property: a machine whose import loses the gas figure must
+    # produce a counterexample
+    r = tlc_exhaustive(wd, "FeeMarket.tla", "FeeMarket_import_witness.cfg", must="fail", workers=8, timeout=3000, heap="6g")
+    c.add_tlc("FeeMarket_import_witness.cfg", r)
 
     # 2. spec -> code: the same grid, behaviours of the model, and random inputs on the real code
+    # behaviours with node operations between blocks (each restart / export-import opens an application:
+    # ~50 ms), and in the thorough tier more behaviours of blocks only
     nscripts = 150 if quick else 2500
-    scripts, r = tlc_scripts(wd, "FeeMarket.tla", "FeeMarket_sim.cfg", nscripts, 32, c.seed)
+    nwith = 150 if quick else 900
+    scripts, r = tlc_scripts(wd, "FeeMarket.tla", "FeeMarket_sim.cfg", nwith, 32, c.seed)
+    if nscripts > nwith:
+        more, r = tlc_scripts(wd, "FeeMarket.tla", "FeeMarket_sim_blocks.cfg", nscripts - nwith, 32, c.seed)
+        seen = {json.dumps(x, sort_keys=True) for x in scripts}
+        scripts += [x for x in more if json.dumps(x, sort_keys=True) not in seen]
     if len(scripts) < nscripts // 2:
         raise Infra("too few scripts generated: %d" % len(scripts))
     _scripts_to_file(scripts, os.path.join(wd, "scripts.json"))
@@ -91,7 +112,7 @@ def run(c):
     nrandom = 100 if quick else 2000
     nrandcalc = 1500 if quick else 25000
     out, hv_wall = hv(["feemarket", "--grid", "grid.json", "--scripts", "scripts.json",
-                       "--random", str(nrandom), "--blocks", "8" if quick else "25",
+                       "--random", str(nrandom), "--blocks", "8" if quick else "25", "--node-ops", "250" if quick else "40",
                        "--random-calc", str(nrandcalc), "--seed", str(c.seed), "--out", "trace.ndjson"], cwd=wd)
     m = re.search(r"calc_rows=(\d+) calc_evaluations=(\d+) sequences=(\d+)", out)
     if not m:
@@ -127,6 +148,7 @@ def run(c):
     if nseq != len(scripts) + nrandom:
         raise Infra("only %d block sequences executed" % nseq)
     steps = 0
+    nbound, sampled = {}, set()
     with open(os.path.join(wd, "trace.ndjson")) as fh:
         for line in fh:
             if '"ev":"calc"' in line:
@@ -140,10 +162,17 @@ def run(c):
             o = json.loads(line)
             if o["ev"] != "reset":
                 steps += 1
-                if o["ev"] in ("begin_block", "end_block") and o["scn"] % 37 == 0 and len(c.samples) < 6:
+                if o["ev"] in ("restart", "reinit", "export_import"):
+                    nbound[o["ev"]] = nbound.get(o["ev"], 0) + 1
+                    if o["ev"] not in sampled and o["post"]["bgw"] != "0":
+                        sampled.add(o["ev"])
+                        c.samples.append({k: o[k] for k in ("ev", "args", "ok", "err")} |
+                                         {"post": {k: o["post"][k] for k in ("baseFee", "bgw", "tgw", "height", "phase", "maxGas")}})
+                if o["ev"] in ("begin_block", "end_block") and o["scn"] % 37 == 0 and len(c.samples) < 9:
                     c.samples.append({k: o[k] for k in ("ev", "args", "ok", "err")} |
                                      {"post": {k: o["post"][k] for k in ("baseFee", "bgw", "tgw", "height", "maxGas")}})
     c.extra["sequence_steps"] = steps
+    c.extra["node_operations_between_blocks"] = nbound
     if steps < 20 * nseq:
         raise Infra("vacuous run: only %d sequence steps" % steps)
 
@@ -171,6 +200,7 @@ def run(c):
         "the statement is silent when the base fee is disabled (NoBaseFee / height < EnableHeight), for the first base-fee block (height = EnableHeight), where the formula divides by zero (elasticity 0, denominator 0, target 0 with g > 0) and for gas quantities above MaxInt64",
         "a fractional min gas price may be rounded to either neighbouring integer",
         "blocks are run at keeper level: real feemarket BeginBlock / ante GasWantedDecorator on a branched context / EndBlock / root multistore commit, with a block context built as baseapp.BeginBlock builds it and gas used consumed on the block gas meter; transactions are not executed through DeliverTx",
+        "node operations happen between blocks on committed state: restart = app.NewHaqq on the same MemDB; reinit = feemarket.ExportGenesis -> JSON -> InitGenesis on a store reset to the module defaults; export_import = ExportAppStateAndValidators(feemarket) on a new application object, InitChain of a fresh application on a new MemDB with the exported fee market genesis, consensus parameters and height; uncommitted (ABCI order) or committed",
         "parameters are changed through MsgUpdateParams (ValidateBasic + message router) inside a block; consensus max gas through the baseapp parameter store",
         "exhaustive model checking is bounded by the constants in specs/FeeMarket_*.cfg",
     ]
